@@ -520,6 +520,9 @@ func (c *contentValidator) validateReadKeyChange(ch *aclrecordproto.AclReadKeyCh
 	if !c.verifier.ShouldValidate() {
 		return nil
 	}
+	if ch == nil {
+		return ErrIncorrectReadKey
+	}
 	_, err = c.keyStore.PubKeyFromProto(ch.MetadataPubKey)
 	if err != nil {
 		return ErrNoMetadataKey
